@@ -226,6 +226,12 @@ func (e *Env) dispatch(st *State, fn *ssa.Function, args []Val, binds []Val, rt 
 	if fn.Synthetic != "" && fn.Blocks != nil && (strings.HasPrefix(fn.Synthetic, "bound method") || strings.HasPrefix(fn.Synthetic, "wrapper") || strings.HasPrefix(fn.Synthetic, "thunk")) {
 		return e.inline(st, fn, args, binds, depth)
 	}
+	if ct := e.Cx.forFunc(fn); ct != nil && ct.Pure && !e.applying[ct] {
+		// declared pure: an (assumed) deterministic, side-effect-free function of its arguments; modelled as an
+		// uninterpreted function, so two calls with equal arguments agree (used for hashing / signature recovery)
+		e.trusted["declared pure (assumed deterministic function of its arguments): "+relFuncName(fn)]++
+		return e.pureCall(st, name, args, rt)
+	}
 	if ct := e.Cx.forFunc(fn); ct != nil && !(e.noContract[fn]) && !e.applying[ct] && !ct.Inline {
 		// (a contract that mentions its own function is unfolded through the body on re-entry)
 		e.applying[ct] = true
